@@ -24,4 +24,18 @@ theorem uadd_comm {ε : Type} (bits a b : Nat) : (Rs.uadd bits a b : Ctl ε Nat)
 theorem umul_comm {ε : Type} (bits a b : Nat) : (Rs.umul bits a b : Ctl ε Nat) = Rs.umul bits b a := by
   unfold Rs.umul; rw [Nat.mul_comm]
 
+theorem ite_eq_comm {α β : Type} [DecidableEq α] (a b : α) (x y : β) :
+    (if a = b then x else y) = (if b = a then x else y) := by
+  by_cases h : a = b
+  · subst h; rfl
+  · have h' : ¬ b = a := fun e => h e.symm
+    simp [h, h']
+
+theorem ite_ne_comm {α β : Type} [DecidableEq α] (a b : α) (x y : β) :
+    (if a ≠ b then x else y) = (if b ≠ a then x else y) := by
+  by_cases h : a = b
+  · subst h; rfl
+  · have h' : ¬ b = a := fun e => h e.symm
+    simp [h, h']
+
 end Rs.Bridge
